@@ -217,12 +217,15 @@ def c18_corpus():
         for n in range(2, 9):
             for pat in C18_PATTERNS:
                 for ratio in C18_RATIOS:
-                    cid = "c18/o%d/N%d/%s/r%d" % (order, n, pat, ratio)
-                    r = gen.Rng(zlib.crc32(cid.encode()))       # seed-independent: the corpus is canonical
-                    T = c18_durations(pat, n, ratio, r.randrange(n))
-                    pr = r.problem(order, 2, n, tdom=T, dcls=r.choice(["grid", "real"]), t0=0.0)
-                    cmds = [{"op": "reset"}, {"op": "note", "case": cid}, gen.build_cmd(1, pr, "ctor_durs", 6)]
-                    out.append((n * 2 * (order + 1) // 2 + 5, cmds))
+                    # several data sets per placement at the large ratios (accuracy loss there depends on the waypoints as well);
+                    # variant 0 keeps the original case id
+                    for var in range(8 if ratio >= 50 and pat in ("one_short", "one_long") else 1):
+                        cid = "c18/o%d/N%d/%s/r%d" % (order, n, pat, ratio) + ("" if var == 0 else "/v%d" % var)
+                        r = gen.Rng(zlib.crc32(cid.encode()))       # seed-independent: the corpus is canonical
+                        T = c18_durations(pat, n, ratio, r.randrange(n))
+                        pr = r.problem(order, (2, 3, 1, 2, 3, 1, 2, 4)[var], n, tdom=T, dcls=r.choice(["grid", "real"]), t0=0.0)
+                        cmds = [{"op": "reset"}, {"op": "note", "case": cid}, gen.build_cmd(1, pr, "ctor_durs", 6)]
+                        out.append((n * 2 * (order + 1) // 2 + 5, cmds))
     return out
 
 
